@@ -315,5 +315,7 @@ pub fn run(seed: u64, n: u64, thorough: bool, corpus: &[String], dir: &str) {
             );
         }
     }
+    // deterministic sweeps (boundaries, truncation, forged lengths, reader consumption, value trees)
+    crate::sweeps::sweeps(&mut out, thorough);
     out.finish(dir);
 }
